@@ -1,7 +1,9 @@
 #!/venv/bin/python
-"""Prints the markdown table of seeded changes from /verif/seeded/*/meta.json (for DESIGN.md section 9.4)."""
-import json, glob, os
+"""Prints the markdown table of seeded changes from /verif/seeded/*/meta.json (DESIGN.md section 9.4).
+With --write, replaces the block between the SEED-TABLE markers in DESIGN.md."""
+import json, glob, os, re, sys
 rows = []
+caught_own = caught_any = total = 0
 for d in sorted(glob.glob("/verif/seeded/*")):
     mp = os.path.join(d, "meta.json")
     if not os.path.exists(mp):
@@ -9,11 +11,30 @@ for d in sorted(glob.glob("/verif/seeded/*")):
     m = json.load(open(mp))
     c = m.get("confirmation", {})
     fired = c.get("checks_fired", {})
-    det = ", ".join(f"{k} (exit {v['exit']})" for k, v in fired.items()) or "none"
-    rules = sorted({r.split("]")[0].split("[")[-1] for v in fired.values() for r in v.get("reports", []) if "[R" in r})
+    viol = {k: v for k, v in fired.items() if v.get("exit") == 1}
+    err = [k for k, v in fired.items() if v.get("exit") == 2]
+    rules = sorted({re.search(r"\[(R\d+\.\d+)\]", r).group(1) for v in viol.values() for r in v.get("reports", []) if re.search(r"\[(R\d+\.\d+)\]", r)})
     demo = f"{c.get('demo_without_change', {}).get('exit')}/{c.get('demo_with_change', {}).get('exit')}"
-    base = "ok" if c.get("baseline", {}).get("ok") else str(c.get("baseline", {}).get("summary", "not run"))[:30]
-    rows.append(f"| {os.path.basename(d)} | {m.get('property')} | {m.get('summary', '')[:150].replace('|', '/')} | {m.get('needs', '')[:140].replace('|', '/')} | {demo} | {base} | {det} | {', '.join(rules)} |")
-print("| seed | property | change | needs | demo exit (without/with) | 705-test baseline with change | checks that fire | rules |")
-print("|---|---|---|---|---|---|---|---|")
-print("\n".join(rows))
+    base = "705 pass" if c.get("baseline", {}).get("ok") else "not confirmed"
+    total += 1
+    prop = m.get("property")
+    caught_any += bool(viol)
+    caught_own += prop in viol
+    clean = lambda t: " ".join(str(t).replace("|", "/").split())
+    rows.append(f"| {os.path.basename(d)} | {clean(m.get('summary', ''))[:230]} | {clean(m.get('needs', ''))[:170]} | {demo} | {base} | "
+                f"{', '.join(sorted(viol)) or '**none**'}{(' (exit 2: ' + ', '.join(err) + ')') if err else ''} | {', '.join(rules)} |")
+head = (f"{total} confirmed seeded changes; {caught_any} are reported as a violation by at least one check, {caught_own} by the check of the property "
+        f"they were written against (the others by a neighbouring property's check, which the table names).\n\n"
+        "| seed | change | needs | demo exit without/with | baseline with change | checks reporting a violation | rules |\n|---|---|---|---|---|---|---|\n")
+table = head + "\n".join(rows) + "\n"
+if "--write" in sys.argv:
+    p = "/verif/DESIGN.md"
+    s = open(p).read()
+    a, b = "<!-- SEED-TABLE-BEGIN -->", "<!-- SEED-TABLE-END -->"
+    if a not in s:
+        s = s.replace("(see the table at the end of this file, updated as the changes were confirmed)", f"{a}\n{b}")
+    s = s[:s.index(a) + len(a)] + "\n" + table + s[s.index(b):]
+    open(p, "w").write(s)
+    print("DESIGN.md updated:", total, "seeds")
+else:
+    print(table)
